@@ -223,6 +223,96 @@ fn unicode_ast(path: &str) -> Result<Value, String> {
     Ok(Value::Array(out))
 }
 
+/// every rule of a speech / braille rule file as {name, tag, match, replace}: replace is the AST of unicode_ast with
+/// computed items carrying their xpath ({"x": "*[2]"}); include: entries are reported as {"include": file}
+fn rules_ast(path: &str) -> Result<Value, String> {
+    use yaml_rust::{Yaml, YamlLoader};
+    let content = std::fs::read_to_string(path).map_err(|e| format!("HARNESS: can't read {}: {}", path, e))?;
+    let docs = YamlLoader::load_from_str(&content).map_err(|e| format!("HARNESS: yaml error in {}: {}", path, e))?;
+    fn list(y: &Yaml) -> Vec<Value> {
+        match y {
+            Yaml::Array(a) => a.iter().flat_map(item).collect(),
+            Yaml::Hash(_) => item(y),
+            _ => vec![],
+        }
+    }
+    fn test(y: &Yaml) -> Value {
+        let mut branches: Vec<Value> = vec![];
+        let mut els: Value = Value::Null;
+        let mut clause = |h: &yaml_rust::yaml::Hash| {
+            for (k, v) in h {
+                match k.as_str().unwrap_or("").to_lowercase().as_str() {
+                    "then" => branches.push(Value::Array(list(v))),
+                    "then_test" => branches.push(json!([test(v)])),
+                    "else" => els = Value::Array(list(v)),
+                    "else_test" => els = json!([test(v)]),
+                    _ => (),
+                }
+            }
+        };
+        match y {
+            Yaml::Hash(h) => clause(h),
+            Yaml::Array(a) => for c in a { if let Yaml::Hash(h) = c { clause(h); } },
+            _ => (),
+        }
+        json!({"test": branches, "else": els})
+    }
+    fn item(y: &Yaml) -> Vec<Value> {
+        let mut out = vec![];
+        if let Yaml::Hash(h) = y {
+            for (k, v) in h {
+                match k.as_str().unwrap_or("").to_lowercase().as_str() {
+                    "t" | "ct" | "ot" => out.push(json!({"t": v.as_str().map(|s| !s.trim().is_empty()).unwrap_or(false)})),
+                    "x" => out.push(json!({"x": v.as_str().unwrap_or("")})),
+                    "spell" | "pronounce" | "translate" => out.push(json!({"x": ""})),
+                    "test" => out.push(test(v)),
+                    "insert" => {
+                        // insert: nodes: xpath, replace: [...] -- speaks the nodes with something between them
+                        let mut nodes = String::new();
+                        if let Yaml::Hash(inner) = v { for (k2, v2) in inner { if k2.as_str() == Some("nodes") { nodes = v2.as_str().unwrap_or("").to_string(); } } }
+                        out.push(json!({"x": nodes}));
+                    }
+                    "pitch" | "rate" | "volume" | "audio" | "gender" | "voice" | "with" | "intent" => {
+                        let mut body = vec![];
+                        if let Yaml::Hash(inner) = v {
+                            for (k2, v2) in inner {
+                                if k2.as_str() == Some("replace") || k2.as_str() == Some("children") { body = list(v2); }
+                            }
+                        }
+                        out.push(json!({"w": body}));
+                    }
+                    _ => out.push(json!("s")),
+                }
+            }
+        }
+        out
+    }
+    let mut out: Vec<Value> = vec![];
+    for d in &docs {
+        if let Yaml::Array(entries) = d {
+            for e in entries {
+                if let Yaml::Hash(h) = e {
+                    let get = |key: &str| h.get(&Yaml::String(key.to_string()));
+                    if let Some(inc) = get("include") { out.push(json!({"include": inc.as_str().unwrap_or("")})); continue; }
+                    let tags: Vec<String> = match get("tag") {
+                        Some(Yaml::String(s)) => vec![s.clone()],
+                        Some(Yaml::Array(a)) => a.iter().filter_map(|x| x.as_str().map(|s| s.to_string())).collect(),
+                        _ => vec![],
+                    };
+                    let m = match get("match") {
+                        Some(Yaml::String(s)) => s.clone(),
+                        Some(Yaml::Array(a)) => a.iter().filter_map(|x| x.as_str()).collect::<Vec<_>>().join(" "),
+                        _ => String::new(),
+                    };
+                    let replace = get("replace").map(list).unwrap_or_default();
+                    out.push(json!({"name": get("name").and_then(|x| x.as_str()).unwrap_or(""), "tag": tags, "match": m, "replace": replace}));
+                }
+            }
+        }
+    }
+    Ok(Value::Array(out))
+}
+
 thread_local! {
     static LAST_MATHML: std::cell::RefCell<String> = std::cell::RefCell::new(String::new());
 }
@@ -274,6 +364,7 @@ pub fn dispatch(op: &[Value]) -> Result<Value, String> {
         "h_yaml_texts" => yaml_texts(&s(op, 1)),
         "h_unicode_entries" => unicode_entries(&s(op, 1)),
         "h_unicode_ast" => unicode_ast(&s(op, 1)),
+        "h_rules_ast" => rules_ast(&s(op, 1)),
         // file-system steps of a fault history (C14): they act on a private copy of Rules/ only
         "h_write" => std::fs::write(s(op, 1), s(op, 2)).map(|_| Value::Null).map_err(|e| format!("HARNESS: {}", e)),
         "h_remove" => std::fs::remove_file(s(op, 1)).map(|_| Value::Null).map_err(|e| format!("HARNESS: {}", e)),
